@@ -63,7 +63,7 @@ fn t(name: &str, code: String, budgets: &[(&str, u32)]) -> Template {
 	}
 }
 
-pub const N_TEMPLATES: usize = 30;
+pub const N_TEMPLATES: usize = 38;
 
 pub fn template(idx: usize, c: i64) -> Template {
 	match idx % N_TEMPLATES {
@@ -202,6 +202,46 @@ pub fn template(idx: usize, c: i64) -> Template {
 		28 => t(
 			"array-shared-between-views",
 			format!("local arr = [std.trace('L1', {c}), std.trace('L2', 2), error 'bomb1']; local s = arr[0:2], r = std.reverse(s); {{ r1: s[0], r2: r[1], r3: arr[0] + s[1] + r[0] }}"),
+			&[("L1", 1), ("L2", 1)],
+		),
+		29 => t(
+			"array-lazy-consumers-then-index",
+			format!("local arr = [std.trace('L1', {c}), std.trace('L2', 2), std.trace('L3', 3)]; {{ r1: [x for x in arr], r2: arr[0] + arr[1], r3: arr + [4], r4: arr }}"),
+			&[("L1", 1), ("L2", 1), ("L3", 1)],
+		),
+		30 => t(
+			"array-index-then-lazy-consumers",
+			format!("local arr = [std.trace('L1', {c}), std.trace('L2', 2)]; local first = arr[0]; {{ r1: first, r2: [x + 1 for x in arr], r3: std.sort(arr, function(x) -x), r4: std.set(arr), r5: arr }}"),
+			&[("L1", 1), ("L2", 1)],
+		),
+		31 => t(
+			"array-views-over-literal",
+			format!("local arr = [std.trace('L1', {c}), std.trace('L2', 2), std.trace('L3', 3), error 'bomb1']; local v = arr[0:3]; {{ r1: v, r2: std.reverse(v), r3: [x for x in v] + v, r4: v[1] }}"),
+			&[("L1", 1), ("L2", 1), ("L3", 1)],
+		),
+		32 => t(
+			"removed-key-never-evaluated",
+			format!("local o = std.objectRemoveKey({{ k: error 'bomb1', kept: std.trace('L1', {c}) }}, 'k'); {{ r1: (o + {{ k+: 5 }}).k, r2: std.get(o, 'k', 'dflt'), r3: o.kept, r4: std.objectFields(o) }}"),
+			&[("L1", 1)],
+		),
+		33 => t(
+			"removed-key-label-never-fires",
+			format!("local base = {{ k: 1 }}, mid = base + {{ k: std.trace('L2', 2), kept: std.trace('L1', {c}) }}; local o = std.objectRemoveKey(mid, 'k'); {{ r1: (o + {{ k+: 5 }}).k, r2: o.kept, r3: std.objectHas(o, 'k'), r4: (o + {{ k: 7 }}).k }}"),
+			&[("L1", 1), ("L2", 0)],
+		),
+		34 => t(
+			"overridden-field-never-evaluated",
+			format!("local a = {{ f: error 'bomb1', g: std.trace('L1', {c}) }}, b = a + {{ f: 2 }}; {{ r1: b.f, r2: b.g, r3: b }}"),
+			&[("L1", 1)],
+		),
+		35 => t(
+			"named-arguments-and-builtins",
+			format!("local f(a, b=error 'bomb1', c=3) = a + c; {{ r1: f(c=std.trace('L1', {c}), a=1), r2: std.get({{ x: 1 }}, 'x', error 'bomb2'), r3: std.map(function(x) x, [std.trace('L2', 2), error 'bomb3'])[0], r4: std.length([error 'bomb4']) }}"),
+			&[("L1", 1), ("L2", 1)],
+		),
+		36 => t(
+			"assert-object-unneeded-fields",
+			format!("local o = {{ assert self.a > 0, a: std.trace('L1', {c}), b: error 'bomb1', c: std.trace('L2', 2) }}; {{ r1: o.a, r2: o.a + o.c }}"),
 			&[("L1", 1), ("L2", 1)],
 		),
 		_ => t(
